@@ -7,7 +7,9 @@ use crate::socket::patterns::ready_pipe_queue::{PipeMessageSender, ReadyPipeQueu
 
 pub(crate) struct AnonymousIngressEngine {
   queue: ReadyPipeQueue<FrameBatch>,
-  local_cache: Mutex<Option<VecDeque<Msg>>>,
+  /// Unread frames of the message currently being read frame by frame, with the id of the pipe
+  /// (connection) it came from.
+  local_cache: Mutex<Option<(usize, VecDeque<Msg>)>>,
 }
 
 impl AnonymousIngressEngine {
@@ -36,7 +38,12 @@ impl AnonymousIngressEngine {
 
   pub fn deregister_pipe(&self, pipe_id: usize) {
     self.queue.deregister_pipe(pipe_id);
-    *self.local_cache.lock() = None;
+    // Only a half-read message of the detached connection is abandoned; a message that is being
+    // read from another peer must stay whole.
+    let mut cache = self.local_cache.lock();
+    if matches!(*cache, Some((owner, _)) if owner == pipe_id) {
+      *cache = None;
+    }
   }
 
   pub fn close(&self) {
@@ -47,7 +54,7 @@ impl AnonymousIngressEngine {
   pub async fn recv(&self, rcvtimeo_opt: Option<std::time::Duration>) -> Result<Msg, ZmqError> {
     {
       let mut cache = self.local_cache.lock();
-      if let Some(ref mut deque) = *cache {
+      if let Some((_, ref mut deque)) = *cache {
         if let Some(msg) = deque.pop_front() {
           if deque.is_empty() { *cache = None; }
           return Ok(msg);
@@ -56,7 +63,7 @@ impl AnonymousIngressEngine {
       }
     }
 
-    let (_, mut batch) = match rcvtimeo_opt {
+    let (pipe_id, mut batch) = match rcvtimeo_opt {
       Some(d) if d.is_zero() => self.queue.try_pop().ok_or(ZmqError::ResourceLimitReached)?,
       Some(d) => tokio::time::timeout(d, self.queue.pop())
         .await
@@ -72,14 +79,14 @@ impl AnonymousIngressEngine {
     }
     let mut deque: VecDeque<Msg> = batch.into_iter().collect();
     let first = deque.pop_front().unwrap();
-    *self.local_cache.lock() = Some(deque);
+    *self.local_cache.lock() = Some((pipe_id, deque));
     Ok(first)
   }
 
   pub async fn recv_multipart(&self, rcvtimeo_opt: Option<std::time::Duration>) -> Result<FrameBatch, ZmqError> {
     {
       let mut cache = self.local_cache.lock();
-      if let Some(ref mut deque) = *cache {
+      if let Some((_, ref mut deque)) = *cache {
         let mut batch = FrameBatch::new();
         let mut completed = false;
         while let Some(msg) = deque.pop_front() {
